@@ -4345,14 +4345,17 @@ where
         chars.len()
     };
 
-    if check(new)? {
-        let mut tail = chars.split_off(index);
-        let mut middle = new.chars().collect::<Vec<char>>();
+    let mut tail = chars.split_off(index);
+    let mut middle = new.chars().collect::<Vec<char>>();
 
-        chars.append(&mut middle);
-        chars.append(&mut tail);
+    chars.append(&mut middle);
+    chars.append(&mut tail);
 
-        Ok(chars.iter().collect())
+    // validate the resulting data, not only the inserted piece: `-` next to `-`,
+    // `>` after `]]` and the like are only wrong in combination.
+    let result = chars.iter().collect::<String>();
+    if check(result.as_str()).unwrap_or(false) {
+        Ok(result)
     } else {
         Err(error::Error::InvalidData(new.to_string()))
     }
